@@ -18,8 +18,8 @@ circuits are compared with on every run):
   starting from the state the previous one left.
 
 The merging of variables by the compiler (`mux_envs`) is modelled for the core fragment
-(Model/BitSem.lean: scalars, `if`, `match` on scalars, `&&` / `||`, blocks, `let`, `let mut`,
-assignment to a variable, calls of functions on scalars):
+(Model/BitSem.lean: scalars, tuples, structs, arrays, `if`, `match`, `&&` / `||`, blocks, `let` with patterns,
+`let mut`, assignment to a variable and through `.i` / `.f` / `[i]` accessors, `for` loops, calls):
 
 * `C14_compiled_scope`, `C14_compiled_stmts_scope`: the compiled code keeps the scope stack — after
   an expression exactly the same variables (names, types, order) are in scope, statements only add
@@ -27,10 +27,11 @@ assignment to a variable, calls of functions on scalars):
 * `C14_merge`: the variable-by-variable merge of two such environments is the environment of the
   branch taken;
 * `C14_compiled_state`: after any statements of the fragment — assignments inside branches, inside match arms, inside
-  the right operand of `&&` / `||`, inside nested blocks with shadowing — the wires of every
+  the right operand of `&&` / `||`, inside nested blocks with shadowing, inside unrolled loop bodies, to single
+  elements of arrays and components of tuples — the wires of every
   variable in scope carry exactly the value the source semantics give it.
 
-Outside that fragment (aggregates, accessors, `match` on aggregates, loops, calls) the merging is tied to these
+Outside that fragment (enums, for-join loops, constants) the merging is tied to these
 semantics by the correspondence run (programs that return every visible variable).
 -/
 namespace GV
@@ -212,11 +213,11 @@ theorem C14_compiled_call_frame (call : CallFn) (fn : String) (args : ExprList) 
   · simp at h
 
 /-- non-vacuity: `if c { x = 1u8; y = x; } else { y = 2u8; }` — both variables are merged -/
-example : bitStmts (callAt ⟨[], []⟩ 0) [("c", .bool, [false]), ("x", .int .u8, enc .u8 7), ("y", .int .u8, enc .u8 0)]
+example : bitStmts (callAt ⟨[], []⟩ 0) [("c", .s .bool, [false]), ("x", .s (.int .u8), enc .u8 7), ("y", .s (.int .u8), enc .u8 0)]
     (.cons (.expr (.ite (.var "c")
       (.block (.cons (.assign "x" .nil (.int 1 .u8)) (.cons (.assign "y" .nil (.var "x")) .nil)))
       (.block (.cons (.assign "y" .nil (.int 2 .u8)) .nil)))) .nil) =
-    some (.unit, [], none, [("c", .bool, [false]), ("x", .int .u8, enc .u8 7), ("y", .int .u8, enc .u8 2)]) := by
+    some (.unit, [], none, [("c", .s .bool, [false]), ("x", .s (.int .u8), enc .u8 7), ("y", .s (.int .u8), enc .u8 2)]) := by
   rfl
 
 end Bit
